@@ -224,7 +224,10 @@ func runMembership(rc *core.RunCtx) {
 	uni := []uMember{{id: "A", host: self.addr, kinds: selfKinds}}
 	for i := 0; i < nuni; i++ {
 		host := fmt.Sprintf("10.9.0.%d:1", i+1)
-		if i > 0 && g.Bool(0.3) {
+		if g.Bool(0.15) {
+			// another cluster member on this very engine (shared WithEngine)
+			host = self.addr
+		} else if i > 0 && g.Bool(0.3) {
 			// a node restarted under a new id on the same address: two members, one host
 			host = uni[len(uni)-1].host
 		}
@@ -265,6 +268,8 @@ func runMembership(rc *core.RunCtx) {
 		rc.Scen("snapshot %d: %v", s, names(uni, snap))
 	}
 	burst := g.Bool(0.4) // send all snapshots without waiting, with concurrent readers
+	preActivate := g.Bool(0.4)
+	rc.Scen("burst=%v activation-before-later-snapshots=%v", burst, preActivate)
 	mk := func(snap []int) []*hcluster.Member {
 		var ms []*hcluster.Member
 		for _, i := range snap {
@@ -327,6 +332,12 @@ func runMembership(rc *core.RunCtx) {
 			e.Send(self.c.PID(), &hcluster.Members{Members: mk(snap)})
 			simrt.WaitQuiet(10 * time.Second)
 			check(j, "quiescent")
+			if j == 0 && preActivate {
+				// the agent has something activated from now on: later joiners are
+				// sent the topology (and must still be announced)
+				self.c.Spawn(func() actor.Receiver { return nopReceiver{} }, "pre", actor.WithID("1"))
+				simrt.WaitQuiet(10 * time.Second)
+			}
 		}
 	} else {
 		readers := g.Range(1, 2)
